@@ -75,6 +75,10 @@ def units(tier, seed):
             for n in (3, 6) if tier == "quick" else (3, 6, 9):
                 us.append({"kind": "search", "algo": algo, "minimize": minimize, "n": n,
                            "max_dev": 2 if tier == "quick" else 3, "max_execs": 4000 if tier == "quick" else 60000})
+                if algo == "gp":
+                    # a step that evaluates offspring itself (selection after variation) before the next population is built
+                    us.append({"kind": "search", "algo": algo, "minimize": minimize, "n": n, "step": "mutation-then-tournament",
+                               "max_dev": 2 if tier == "quick" else 3, "max_execs": 4000 if tier == "quick" else 60000})
     return us
 
 
@@ -229,7 +233,25 @@ def run_search(unit) -> UnitResult:
         rec = Rec()
         tracker = SingleObjectiveProgressTracker(problem, SequentialEvaluator(), recorders=[rec])
         budget = EvaluationBudget(n)
-        if algo == "gp":
+        handed = []
+        orig_evaluate = tracker.evaluate
+
+        def logging_evaluate(individuals):
+            inds = list(individuals)
+            out = orig_evaluate(inds)
+            handed.extend(i.get_fitness(problem).fitness_components[0] for i in inds if i.has_fitness(problem))
+            return out
+
+        tracker.evaluate = logging_evaluate
+        tracker.handed = handed
+        if algo == "gp" and unit.get("step") == "mutation-then-tournament":
+            from geneticengine.algorithms.gp.operators.combinators import SequenceStep
+            from geneticengine.algorithms.gp.operators.mutation import GenericMutationStep
+            from geneticengine.algorithms.gp.operators.selection import TournamentSelection
+
+            alg = GeneticProgramming(problem, budget, rep, random=src, tracker=tracker, population_size=3,
+                                     step=SequenceStep(GenericMutationStep(1), TournamentSelection(2, with_replacement=True)))
+        elif algo == "gp":
             alg = GeneticProgramming(problem, budget, rep, random=src, tracker=tracker, population_size=3)
         elif algo == "rs":
             alg = RandomSearch(problem, budget, rep, random=src, tracker=tracker)
@@ -256,7 +278,9 @@ def run_search(unit) -> UnitResult:
             r.nontrivial += 1
         got = res.get_fitness(problem).fitness_components[0] if res is not None and res.has_fitness(problem) else None
         if got != best:
-            r.add_violation(Violation(PROP, f"{algo}.search", "returned-not-best", {"algo": algo, "minimize": minimize}, w,
+            presented = bool(tracker.handed) and (min if minimize else max)(tracker.handed) == best
+            r.add_violation(Violation(PROP, f"{algo}.search", "returned-not-best",
+                                      {"algo": algo, "minimize": minimize, "step": unit.get("step", "default"), "best_presented_to_tracker": presented}, w,
                                       f"{algo} minimize={minimize}: search returned fitness {got}, evaluated {log}"))
         if res is not tracker.get_best_individual():
             r.add_violation(Violation(PROP, f"{algo}.search", "returned-not-tracker-best", {"algo": algo}, w, f"{algo}: returned individual is not the tracker's best"))
